@@ -250,12 +250,14 @@ fn run_measure(sc: &Value, t: &mut Tracer) {
 			secs1000 = 27;
 		}
 		_ => {
-			let mut tr = sim
-				.manager
-				.add_sub_track(TrackBuilder::new().with_effect(
-					DelayBuilder::new().delay_time(Duration::from_micros(delay_us)).feedback(Decibels(-6.0)).mix(Mix(0.5)),
-				))
-				.unwrap();
+			// "reverb": the first reflection of the reverb (its shortest comb line, 1116 samples at 44.1 kHz = 25.3 ms, a time
+			// in seconds like any other) is measured like the first echo of a delay
+			let b = if what == "reverb" {
+				TrackBuilder::new().with_effect(kira::effect::reverb::ReverbBuilder::new().feedback(0.0).damping(0.0).mix(Mix(0.5)))
+			} else {
+				TrackBuilder::new().with_effect(DelayBuilder::new().delay_time(Duration::from_micros(delay_us)).feedback(Decibels(-6.0)).mix(Mix(0.5)))
+			};
+			let mut tr = sim.manager.add_sub_track(b).unwrap();
 			if rates.len() > 1 {
 				// across a change: the impulse comes half a second after the switch (one frame wide at any rate) - or, if
 				// asked for, at a given time before it, so that its echo is due after the switch
@@ -269,10 +271,11 @@ fn run_measure(sc: &Value, t: &mut Tracer) {
 				std::mem::forget(h);
 			}
 			std::mem::forget(tr);
-			secs1000 = delay_us as i64 * unit / 1_000_000;
+			secs1000 = if what == "reverb" { 1116 * unit / 44100 } else { delay_us as i64 * unit / 1_000_000 };
 		}
 	}
-	let mut ms = 0i64; // elapsed device time
+	let mut ms = 0i64; // elapsed device time (rounded from `secs`, which is exact enough not to drift over many callbacks)
+	let mut secs = 0f64;
 	let mut rate = rates[0];
 	let mut rmin = rate;
 	let mut first: Option<i64> = None;
@@ -290,7 +293,7 @@ fn run_measure(sc: &Value, t: &mut Tracer) {
 		let res = sim.callback(cbf);
 		for f in 0..cbf {
 			let x = res.out[2 * f];
-			let now = ms + (f as i64 * unit) / rate as i64;
+			let now = ((secs + f as f64 / rate as f64) * unit as f64).round() as i64;
 			if what == "filter" {
 				if x >= 0.5 && result.is_none() {
 					result = Some(now - 200);
@@ -300,7 +303,7 @@ fn run_measure(sc: &Value, t: &mut Tracer) {
 			if x != 0.0 {
 				if first.is_none() {
 					first = Some(now);
-				} else if what == "echo" && second.is_none() && silent_run > 0 {
+				} else if (what == "echo" || what == "reverb") && second.is_none() && silent_run > 0 {
 					second = Some(now);
 				}
 				last = Some(now);
@@ -309,7 +312,8 @@ fn run_measure(sc: &Value, t: &mut Tracer) {
 				silent_run += 1;
 			}
 		}
-		ms += (cbf as i64 * unit) / rate as i64;
+		secs += cbf as f64 / rate as f64;
+		ms = (secs * unit as f64).round() as i64;
 		match what {
 			"clock" => {
 				if clock.as_ref().unwrap().time().ticks >= 4 {
